@@ -280,7 +280,7 @@ C20_PANIC_TRIAGE = {
     LA_ + 'aggregate_proofs|panic|assert': 'sanity checks on the batched accumulator and on sizes computed from inner proofs that were verified one by one just before',
     LA_ + 'aggregate_proofs|index|alloc::vec::Vec[core::ops::range::RangeTo]': 'the Lagrange commitments cover the whole domain (C20.R7); the number of accumulator bases '
                                                                              'is bounded by the rows of the committed-instance column',
-    LA_ + 'aggregate_proofs::{closure#1}|unwrap|Result::unwrap': 'conversion of the per-proof instances to [F; 2]: guarded by the length check at the top of the function',
+    LA_ + 'aggregate_proofs::{closure}|unwrap|Result::unwrap': 'conversion of the per-proof instances to [F; 2]: guarded by the length check at the top of the function',
     LA_ + 'verify|index|alloc::vec::Vec[core::ops::range::RangeTo]': 'guarded by `bases1.len() > lagrange_commitments.len() -> Err` just above',
 }
 
@@ -300,7 +300,8 @@ def r10_api_totality(ck, w):
         for nid in panics.own_bodies(w, root):
             b = w.mir_body(nid)
             for s_ in panics.sites(b):
-                key = f'{nid}|{s_["kind"]}|{s_["detail"]}'
+                import re as _re
+                key = _re.sub(r'\{closure#\d+\}', '{closure}', f'{nid}|{s_["kind"]}|{s_["detail"]}')      # closure numbers shift when a closure is added
                 if key in seen:
                     continue
                 seen.add(key)
